@@ -14,7 +14,7 @@ Emitted per path: the exit (return <expr> / raise <callee> / end) and the sequen
     wrap v     janet_stream(v, ...) / make_stream / janet_makefile / janet_makejfile: an object with a finaliser owns it now
                (janet_stream_marshal: the duplicate travels in the marshalled message)
 
-each with the key `callee(first argument)` under which the site appears in Gen/Fds.lean (`fdSites`).  Lean replays every path
+each with the key `callee(first argument, locals as $k)` under which the site appears in Gen/Fds.lean (`fdSites`).  Lean replays every path
 (`Loop/FdPaths.lean`: a local that holds a descriptor is not overwritten, close / wrap only of a held local, nothing held at any
 exit except what the two pipe constructors return) and checks the table against `fdSites` both ways.  The path enumeration itself
 is this script's (as in C19's counter balance): Lean checks each emitted path and the coverage of the site table, not that the
@@ -208,11 +208,12 @@ def _mark(fn, body):
     """append `@n` to the callee of the n-th (n >= 2) occurrence of a site key, numbered exactly as tools/gen/fds.py numbers them"""
     rx_fd = _fds._call_rx(_fds.CREATE + _fds.CLOSE + _fds.WRAP)
     seen, ins = {}, []
+    idmap = _fds.ident_map(fn, body)
     for m, _guards in _sites(body, rx_fd):
         callee = m.group(1)
         if callee == fn:
             continue
-        key = "%s(%s)" % (callee, _fds._first_arg(body, m)[:32])
+        key = _fds.site_key(callee, _fds._first_arg(body, m), idmap, grow=False)
         seen[key] = seen.get(key, 0) + 1
         if seen[key] > 1:
             ins.append((m.start(1) + len(callee), "@%d" % seen[key]))
@@ -253,8 +254,9 @@ def _uniq(states):
 
 
 class Walker:
-    def __init__(self, fn, top):
+    def __init__(self, fn, top, idmap=None):
         self.fn, self.top = fn, top
+        self.idmap = idmap or {}
         self.exits = []          # (kind, label, events)
         self.goto_depth = 0
         names = CREATE1 + CREATE2 + MOVE + CLOSE + WRAP + [c for f, c in HANDOVER if f == fn]
@@ -305,7 +307,7 @@ class Walker:
             inside = _unmark(inside)
             arg = _norm_var(_first_arg(inside))
             # the key under which tools/gen/fds.py lists this call site (occurrence number from the marker put there by _mark)
-            key = "%s(%s)" % (callee, _ws(_first_arg(inside))[:32]) + (("#" + m.group(2)[1:]) if m.group(2) else "")
+            key = _fds.site_key(callee, _ws(_first_arg(inside))[:60], self.idmap, grow=False) + (("#" + m.group(2)[1:]) if m.group(2) else "")
             if re.fullmatch(PANIC_RX, callee):
                 for s in states:
                     self.exits.append(("raise", callee, s.events))
@@ -488,7 +490,7 @@ def extract(tree):
         if body is None:
             raise ExtractError("path walk: function %s not found in %s" % (fn, f))
         top = _parse_nodes(_mark(fn, body).strip()[1:-1])
-        w = Walker(fn, top)
+        w = Walker(fn, top, _fds.ident_map(fn, body))
         fall, b, c = w.nodes(top, [State()])
         if b or c:
             raise ExtractError("%s: break / continue outside a loop" % fn)
@@ -527,7 +529,7 @@ def diagnose(paths):
                     break
                 held.remove(v)
                 held.append(w)
-        exp = 2 if (fn, kind, label) in (("janet_make_pipe", "return", "0"), ("make_pipes", "return", "handles[0]")) else 0
+        exp = 2 if (fn, kind, label) == ("janet_make_pipe", "return", "0") or (fn == "make_pipes" and kind == "return" and label != "(-1)") else 0
         if why is None and len(held) != exp:
             why = "exit `%s %s` with local(s) %s still holding a descriptor" % (kind, label, held) if held else "successful return without both pipe ends"
         if why:
